@@ -3,3 +3,12 @@ package interpreter
 // VerifInstanceID exposes the unique instance id of a runtime component to the
 // verification harness (overlay-added file, not part of the repository).
 func (rt *baseRuntime) VerifInstanceID() string { return rt.instanceID }
+
+// VerifDebuggerLock exposes the debugger's own lock (as interface{} because the
+// instrumented build replaces package sync).
+func VerifDebuggerLock(d interface{}) interface{} {
+	if ed, ok := d.(*ecalDebugger); ok {
+		return ed.lock
+	}
+	return nil
+}
